@@ -43,7 +43,8 @@ TRUSTED_BASE = [
     "Rust harness harness/src/bin/c05.rs incl. its recording Hasher (records write/write_usize/write_isize calls; no hash value is computed)",
     "hook dashu_int::verif_hooks::repr_layout_ubig/ibig (cfg dashu_verif) reports the capacity field, length and inline flag faithfully",
     "IBig arithmetic used inside float/rational comparison (shl_digits, products) is taken at its Z meaning (C01/C09)",
-    "Repr::digits_ub is an over-estimate of the digit count (hypothesis of the float theorems; the result is independent of the estimate)",
+    "Repr::digits_ub bounds the significand (|sig| < B^(digits_ub+1), hypothesis of the float theorems): not proved for the f32 estimate, "
+    "but asserted by the oracle on the estimate reported for every float of every run",
 ]
 ASSUMPTIONS = [
     "64-bit words in the correspondence run (the integer theorems hold for every word size w > 0)",
